@@ -10,7 +10,9 @@ import (
 
 	"pgregory.net/rapid"
 
+	"verif/harness/gen"
 	"verif/harness/guard"
+	"verif/harness/model"
 	"verif/harness/ref"
 	"verif/harness/vf"
 )
@@ -65,13 +67,20 @@ func checkC06(c caseC06) (sig, msg string) {
 		defer close(sr.Release)
 	}
 	rd, consumed := wrappedStream(c.Reader, sr)
-	want := 0
+	// each frame read on its own, before the stream is touched: what the
+	// bytes of that frame alone decode to
+	alones := make([]readResult, len(c.Frames))
 	for i, f := range c.Frames {
 		total, _, err := ref.FrameLen(f)
 		if err != nil || total != len(f) {
 			return "harness", fmt.Sprintf("harness: frame %d is not a complete frame: %s", i, hx(f))
 		}
-		alone := contiguous(f)
+		alones[i] = contiguous(f)
+	}
+	want := 0
+	for i, f := range c.Frames {
+		total := len(f)
+		alone := alones[i]
 		var got readResult
 		if c.Open {
 			done := make(chan readResult, 1)
@@ -139,6 +148,19 @@ func TestC06(t *testing.T) {
 		kinds := make([]string, n)
 		for i := 0; i < n; i++ {
 			f, k := genCompleteFrame(t, rapid.IntRange(0, 3).Draw(t, "small") > 0)
+			if rapid.IntRange(0, 9).Draw(t, "aliasframe") == 0 {
+				// PUBLISH frames that refer to one of a few topic aliases, with
+				// or without a topic name: what a frame decodes to is a matter
+				// of its bytes, not of the frames that defined the alias before
+				m := model.New(model.PUBLISH)
+				m.TopicAlias = uint16(rapid.IntRange(1, 3).Draw(t, "alias"))
+				if rapid.Bool().Draw(t, "aliasdefines") {
+					m.TopicName = gen.Topic(t, "aliastopic", gen.Opts{Small: true}, true)
+				}
+				m.Payload = []byte("x")
+				m.Normalize()
+				f, k = ref.Canonical(&m), "valid-ref"
+			}
 			c.Frames = append(c.Frames, f)
 			kinds[i] = k
 		}
